@@ -1,15 +1,542 @@
-"""symx.strings -- text with symbolic code points and codec models (stage 2; see DESIGN 3.2)."""
-from .values import EngineGap
+"""symx.strings -- text with symbolic code points (concrete length) and codec models.
+
+SymStr supports the operations the code under test performs on text derived from data:
+join / % formatting / split / find / strip / slicing / comparison (hexdump, hexundump), and
+encode / decode for ascii, utf-8, utf-16, utf-32 (StringEncoded).
+"""
+import z3
+from . import engine as E
+from .values import SymInt, SymBool, SymBytes, ShByteArray, concretize, mkbytes, EngineGap, _lift_bytes
+
+WS = (9, 10, 11, 12, 13, 28, 29, 30, 31, 32, 133, 160)
+
+
+def _cp(x):
+    return x if isinstance(x, (int, SymInt)) else ord(x)
+
+
+def mkstr(items):
+    items = tuple(items)
+    if all(isinstance(c, int) for c in items):
+        return "".join(chr(c) for c in items)
+    return SymStr(items)
+
+
+def lift(x):
+    if isinstance(x, SymStr):
+        return x.items
+    if isinstance(x, str):
+        return tuple(ord(c) for c in x)
+    return None
+
+
+def _eq_items(a, b):
+    """z3 Bool / bool"""
+    if len(a) != len(b):
+        return False
+    conj = []
+    for x, y in zip(a, b):
+        if isinstance(x, int) and isinstance(y, int):
+            if x != y:
+                return False
+            continue
+        r = (x == y) if isinstance(x, SymInt) else (y == x)
+        if isinstance(r, SymBool):
+            conj.append(r.t)
+        elif not r:
+            return False
+    if not conj:
+        return True
+    return z3.And(*conj) if len(conj) > 1 else conj[0]
 
 
 class SymStr:
-    """placeholder until stage 2"""
-    __slots__ = ("cps",)
+    __slots__ = ("items",)
+
+    def __init__(self, items):
+        self.items = tuple(items)
+
+    def __len__(self):
+        return len(self.items)
+
+    def __bool__(self):
+        return len(self.items) > 0
+
+    def __iter__(self):
+        return (mkstr((c,)) for c in self.items)
+
+    def __getitem__(self, i):
+        if isinstance(i, slice):
+            i = slice(concretize(i.start), concretize(i.stop), concretize(i.step))
+            return mkstr(self.items[i])
+        return mkstr((self.items[concretize(i)],))
+
+    def __add__(self, o):
+        o = lift(o)
+        if o is None:
+            return NotImplemented
+        return mkstr(self.items + o)
+
+    def __radd__(self, o):
+        o = lift(o)
+        if o is None:
+            return NotImplemented
+        return mkstr(o + self.items)
+
+    def __mul__(self, n):
+        return mkstr(self.items * concretize(n))
+
+    __rmul__ = __mul__
+
+    def __eq__(self, o):
+        o = lift(o)
+        if o is None:
+            return False
+        return SymBool.make(_eq_items(self.items, o))
+
+    def __ne__(self, o):
+        r = self.__eq__(o)
+        return SymBool.make(z3.Not(r.t)) if isinstance(r, SymBool) else (not r)
+
+    def __hash__(self):
+        return hash("".join(chr(concretize(c)) for c in self.items))
+
+    def __repr__(self):
+        return "<symstr %d>" % len(self.items)
+
+    def __str__(self):
+        raise EngineGap("str(SymStr) reached a C function")
+
+    def __format__(self, spec):
+        return "<symstr>"
+
+    def __contains__(self, sub):
+        return self.find(sub) >= 0
+
+    def __mod__(self, args):
+        return sym_format(self, args)
+
+    def find(self, sub, start=0, end=None):
+        sub = lift(sub)
+        end = len(self.items) if end is None else end
+        n = len(sub)
+        for i in range(start, end - n + 1):
+            if SymBool.make(_eq_items(self.items[i:i + n], sub)):
+                return i
+        return -1
+
+    def index(self, sub, *a):
+        r = self.find(sub, *a)
+        if r < 0:
+            raise ValueError("substring not found")
+        return r
+
+    def startswith(self, p):
+        p = lift(p)
+        return len(p) <= len(self.items) and bool(SymBool.make(_eq_items(self.items[:len(p)], p)))
+
+    def endswith(self, p):
+        p = lift(p)
+        return len(p) <= len(self.items) and bool(SymBool.make(_eq_items(self.items[len(self.items) - len(p):], p)))
+
+    def _isws(self, c):
+        if isinstance(c, int):
+            return chr(c).isspace()
+        for w in WS:
+            if c == w:
+                return True
+        return False
+
+    def _strip(self, chars, left, right):
+        items = self.items
+        if chars is None:
+            test = self._isws
+        else:
+            cs = lift(chars)
+
+            def test(c):
+                for x in cs:
+                    if c == x:
+                        return True
+                return False
+        if left:
+            while items and test(items[0]):
+                items = items[1:]
+        if right:
+            while items and test(items[-1]):
+                items = items[:-1]
+        return mkstr(items)
+
+    def strip(self, chars=None):
+        return self._strip(chars, True, True)
+
+    def lstrip(self, chars=None):
+        return self._strip(chars, True, False)
+
+    def rstrip(self, chars=None):
+        return self._strip(chars, False, True)
+
+    def split(self, sep=None, maxsplit=-1):
+        maxsplit = concretize(maxsplit)
+        out = []
+        if sep is None:
+            cur = []
+            for c in self.items:
+                if self._isws(c):
+                    if cur:
+                        out.append(mkstr(cur))
+                        cur = []
+                else:
+                    cur.append(c)
+            if cur:
+                out.append(mkstr(cur))
+            return out
+        sp = lift(sep)
+        n = len(sp)
+        if n == 0:
+            raise ValueError("empty separator")
+        i, start = 0, 0
+        items = self.items
+        while i + n <= len(items):
+            if (maxsplit < 0 or len(out) < maxsplit) and SymBool.make(_eq_items(items[i:i + n], sp)):
+                out.append(mkstr(items[start:i]))
+                i += n
+                start = i
+            else:
+                i += 1
+        out.append(mkstr(items[start:]))
+        return out
+
+    def join(self, seq):
+        return str_join(self, seq)
+
+    def encode(self, encoding="utf-8", errors="strict"):
+        return encode(self, encoding, errors)
+
+    def upper(self):
+        return mkstr([_upper(c) for c in self.items])
+
+    def lower(self):
+        return mkstr([_lower(c) for c in self.items])
+
+    def replace(self, old, new, count=-1):
+        parts = self.split(old, count)
+        return str_join(new, parts)
+
+    def isdigit(self):
+        for c in self.items:
+            if not (c >= 48) or not (c <= 57):
+                return False
+        return len(self.items) > 0
 
 
-def str_to_int(*a, **k):
-    raise EngineGap("int(SymStr)")
+def _upper(c):
+    if isinstance(c, int):
+        return ord(chr(c).upper()) if len(chr(c).upper()) == 1 else c
+    if c >= 97 and c <= 122:
+        return c - 32
+    if c < 128:
+        return c
+    raise EngineGap("upper() of a symbolic non-ascii character")
 
 
-def decode(data, encoding, errors="strict"):
-    raise EngineGap("decode of symbolic bytes (codec %r) not modelled" % (encoding,))
+def _lower(c):
+    if isinstance(c, int):
+        return ord(chr(c).lower()) if len(chr(c).lower()) == 1 else c
+    if c >= 65 and c <= 90:
+        return c + 32
+    if c < 128:
+        return c
+    raise EngineGap("lower() of a symbolic non-ascii character")
+
+
+def str_join(sep, seq):
+    sp = lift(sep)
+    out = []
+    for i, x in enumerate(seq):
+        if i:
+            out.extend(sp)
+        xi = lift(x)
+        if xi is None:
+            raise TypeError("sequence item %d: expected str instance, %s found" % (i, type(x).__name__))
+        out.extend(xi)
+    return mkstr(out)
+
+
+def str_to_int(s, base=10):
+    items = lift(s)
+    base = concretize(base)
+    it = SymStr(items).strip()
+    items = lift(it)
+    if not items:
+        raise ValueError("invalid literal for int()")
+    neg = False
+    if isinstance(items[0], int) and chr(items[0]) in "+-":
+        neg = items[0] == 45
+        items = items[1:]
+    if base == 16 and len(items) >= 2 and isinstance(items[0], int) and isinstance(items[1], int) and chr(items[0]) == "0" and chr(items[1]) in "xX":
+        items = items[2:]
+    if not items:
+        raise ValueError("invalid literal for int()")
+    val = 0
+    for c in items:
+        if isinstance(c, int):
+            d = int(chr(c), 36) if chr(c).isalnum() and ord(chr(c)) < 128 else base
+        else:
+            ok = z3.Or(z3.And(c.t >= 48, c.t <= 57), z3.And(c.t >= 65, c.t <= 90), z3.And(c.t >= 97, c.t <= 122)) if True else None
+            w = c.w
+            if not SymBool.make(z3.Or(z3.And(c.ext(w) >= 48, c.ext(w) <= 57), z3.And(c.ext(w) >= 65, c.ext(w) <= 90), z3.And(c.ext(w) >= 97, c.ext(w) <= 122))):
+                raise ValueError("invalid literal for int() with base %d" % base)
+            t = c.ext(w)
+            dv = z3.If(t <= 57, t - 48, z3.If(t <= 90, t - 55, t - 87))
+            d = SymInt.make(dv, w, 0, 35)
+        if not (d < base):
+            raise ValueError("invalid literal for int() with base %d" % base)
+        val = val * base + d
+    return -val if neg else val
+
+
+# ---------------------------------------------------------------------------------------------
+def sym_format(fmt, args):
+    """'fmt' % args where fmt or some %s argument is symbolic text: supports %s %-Ns %Ns %% and, for concrete
+    arguments, every conversion Python supports"""
+    import re
+    f = lift(fmt)
+    if any(not isinstance(c, int) for c in f):
+        raise EngineGap("symbolic format string")
+    fs = "".join(chr(c) for c in f)
+    tup = args if isinstance(args, tuple) else (args,)
+    out = []
+    pos = 0
+    ai = 0
+    for m in re.finditer(r"%(?:\(([^)]*)\))?([-#0 +]*)(\*|\d+)?(?:\.(\*|\d+))?[hlL]?([a-zA-Z%])", fs):
+        out.extend(ord(c) for c in fs[pos:m.start()])
+        pos = m.end()
+        key, flags, width, prec, conv = m.groups()
+        if conv == "%":
+            out.append(37)
+            continue
+        if key is not None:
+            a = args[key]
+        else:
+            if width == "*":
+                width = str(tup[ai])
+                ai += 1
+            a = tup[ai]
+            ai += 1
+        if isinstance(a, SymStr) and conv in "sr":
+            items = list(a.items)
+            if prec:
+                items = items[:int(prec)]
+            w = int(width) if width else 0
+            pad = [32] * max(0, w - len(items))
+            out.extend(items + pad if "-" in flags else pad + items)
+        elif isinstance(a, (SymInt, SymBool, SymBytes, ShByteArray)):
+            out.extend(ord(c) for c in "<sym>")
+        else:
+            spec = "%" + (flags or "") + (width or "") + (("." + prec) if prec else "") + conv
+            out.extend(ord(c) for c in (spec % (a,)))
+    out.extend(ord(c) for c in fs[pos:])
+    if ai != len(tup) and not isinstance(args, dict):
+        raise TypeError("not all arguments converted during string formatting")
+    return mkstr(out)
+
+
+# ---------------------------------------------------------------------------------------------
+# codecs
+def _norm_enc(e):
+    return e.lower().replace("-", "_")
+
+
+def decode(data, encoding="utf-8", errors="strict"):
+    items = _lift_bytes(data)
+    e = _norm_enc(encoding)
+    if errors != "strict":
+        raise EngineGap("decode with errors=%r" % errors)
+    if e in ("ascii", "us_ascii"):
+        for i, b in enumerate(items):
+            if not (b < 128):
+                raise UnicodeDecodeError("ascii", b"\x80", 0, 1, "ordinal not in range(128)")
+        return mkstr(items)
+    if e in ("latin_1", "latin1", "iso_8859_1"):
+        return mkstr(items)
+    if e in ("utf8", "utf_8", "u8"):
+        return _dec_utf8(items)
+    if e in ("utf_16_le", "utf_16_be", "utf_16", "utf16", "u16"):
+        return _dec_utf16(items, e)
+    if e in ("utf_32_le", "utf_32_be", "utf_32", "utf32", "u32"):
+        return _dec_utf32(items, e)
+    raise EngineGap("codec %r not modelled" % encoding)
+
+
+def _err(codec, msg):
+    return UnicodeDecodeError(codec, b"\xff", 0, 1, msg)
+
+
+def _dec_utf8(items):
+    out = []
+    i, n = 0, len(items)
+
+    def cont(j):
+        if j >= n:
+            raise _err("utf-8", "unexpected end of data")
+        b = items[j]
+        if not (b >= 0x80) or not (b <= 0xBF):
+            raise _err("utf-8", "invalid continuation byte")
+        return b - 0x80
+    while i < n:
+        b = items[i]
+        if b < 0x80:
+            out.append(b)
+            i += 1
+        elif b < 0xC2:
+            raise _err("utf-8", "invalid start byte")
+        elif b < 0xE0:
+            out.append((b - 0xC0) * 64 + cont(i + 1))
+            i += 2
+        elif b < 0xF0:
+            c1, c2 = cont(i + 1), cont(i + 2)
+            cp = ((b - 0xE0) * 64 + c1) * 64 + c2
+            if cp < 0x800:
+                raise _err("utf-8", "invalid continuation byte")
+            if cp >= 0xD800 and cp <= 0xDFFF:
+                raise _err("utf-8", "invalid continuation byte")
+            out.append(cp)
+            i += 3
+        elif b < 0xF5:
+            c1, c2, c3 = cont(i + 1), cont(i + 2), cont(i + 3)
+            cp = (((b - 0xF0) * 64 + c1) * 64 + c2) * 64 + c3
+            if cp < 0x10000 or cp > 0x10FFFF:
+                raise _err("utf-8", "invalid continuation byte")
+            out.append(cp)
+            i += 4
+        else:
+            raise _err("utf-8", "invalid start byte")
+    return mkstr(out)
+
+
+def _dec_utf16(items, e):
+    import sys
+    n = len(items)
+    i = 0
+    little = (e == "utf_16_le") or (e in ("utf_16", "utf16", "u16") and sys.byteorder == "little")
+    if e in ("utf_16", "utf16", "u16") and n >= 2:
+        b0, b1 = items[0], items[1]
+        if b0 == 0xFF and b1 == 0xFE:
+            little, i = True, 2
+        elif b0 == 0xFE and b1 == 0xFF:
+            little, i = False, 2
+    out = []
+
+    def unit(j):
+        if j + 2 > n:
+            raise _err("utf-16", "truncated data")
+        lo, hi = (items[j], items[j + 1]) if little else (items[j + 1], items[j])
+        return hi * 256 + lo
+    while i < n:
+        u = unit(i)
+        i += 2
+        if u >= 0xD800 and u <= 0xDBFF:
+            if i >= n:
+                raise _err("utf-16", "unexpected end of data")
+            v = unit(i)
+            if not (v >= 0xDC00) or not (v <= 0xDFFF):
+                raise _err("utf-16", "illegal UTF-16 surrogate")
+            i += 2
+            out.append(0x10000 + (u - 0xD800) * 1024 + (v - 0xDC00))
+        elif u >= 0xDC00 and u <= 0xDFFF:
+            raise _err("utf-16", "illegal encoding")
+        else:
+            out.append(u)
+    return mkstr(out)
+
+
+def _dec_utf32(items, e):
+    import sys
+    n = len(items)
+    i = 0
+    little = (e == "utf_32_le") or (e in ("utf_32", "utf32", "u32") and sys.byteorder == "little")
+    if e in ("utf_32", "utf32", "u32") and n >= 4:
+        if items[0] == 0xFF and items[1] == 0xFE and items[2] == 0 and items[3] == 0:
+            little, i = True, 4
+        elif items[0] == 0 and items[1] == 0 and items[2] == 0xFE and items[3] == 0xFF:
+            little, i = False, 4
+    out = []
+    while i < n:
+        if i + 4 > n:
+            raise _err("utf-32", "truncated data")
+        bs = items[i:i + 4]
+        if little:
+            bs = bs[::-1]
+        cp = ((bs[0] * 256 + bs[1]) * 256 + bs[2]) * 256 + bs[3]
+        if cp > 0x10FFFF:
+            raise _err("utf-32", "code point not in range(0x110000)")
+        if cp >= 0xD800 and cp <= 0xDFFF:
+            raise _err("utf-32", "code point in surrogate code point range")
+        out.append(cp)
+        i += 4
+    return mkstr(out)
+
+
+def encode(s, encoding="utf-8", errors="strict"):
+    import sys
+    items = lift(s)
+    e = _norm_enc(encoding)
+    if errors != "strict":
+        raise EngineGap("encode with errors=%r" % errors)
+
+    def bad(codec):
+        return UnicodeEncodeError(codec, "\ud800", 0, 1, "not encodable")
+    out = []
+    if e in ("ascii", "us_ascii"):
+        for c in items:
+            if not (c < 128):
+                raise bad("ascii")
+            out.append(c)
+        return mkbytes(out)
+    if e in ("latin_1", "latin1", "iso_8859_1"):
+        for c in items:
+            if not (c < 256):
+                raise bad("latin-1")
+            out.append(c)
+        return mkbytes(out)
+    if e in ("utf8", "utf_8", "u8"):
+        for c in items:
+            if c < 0x80:
+                out.append(c)
+            elif c < 0x800:
+                out += [0xC0 + c // 64, 0x80 + c % 64]
+            elif c < 0x10000:
+                if c >= 0xD800 and c <= 0xDFFF:
+                    raise bad("utf-8")
+                out += [0xE0 + c // 4096, 0x80 + (c // 64) % 64, 0x80 + c % 64]
+            else:
+                out += [0xF0 + c // 262144, 0x80 + (c // 4096) % 64, 0x80 + (c // 64) % 64, 0x80 + c % 64]
+        return mkbytes(out)
+    if e in ("utf_16_le", "utf_16_be", "utf_16", "utf16", "u16"):
+        little = (e == "utf_16_le") or (e in ("utf_16", "utf16", "u16") and sys.byteorder == "little")
+        units = []
+        if e in ("utf_16", "utf16", "u16"):
+            units.append(0xFEFF)
+        for c in items:
+            if c < 0x10000:
+                if c >= 0xD800 and c <= 0xDFFF:
+                    raise bad("utf-16")
+                units.append(c)
+            else:
+                v = c - 0x10000
+                units += [0xD800 + v // 1024, 0xDC00 + v % 1024]
+        for u in units:
+            out += [u % 256, u // 256] if little else [u // 256, u % 256]
+        return mkbytes(out)
+    if e in ("utf_32_le", "utf_32_be", "utf_32", "utf32", "u32"):
+        little = (e == "utf_32_le") or (e in ("utf_32", "utf32", "u32") and sys.byteorder == "little")
+        cps = ([0xFEFF] if e in ("utf_32", "utf32", "u32") else []) + list(items)
+        for c in cps:
+            if not isinstance(c, int) or c != 0xFEFF:
+                if c >= 0xD800 and c <= 0xDFFF:
+                    raise bad("utf-32")
+            bs = [c // 16777216, (c // 65536) % 256, (c // 256) % 256, c % 256]
+            out += bs[::-1] if little else bs
+        return mkbytes(out)
+    raise EngineGap("codec %r not modelled" % encoding)
